@@ -140,7 +140,6 @@ impl Array {
             .take(leading_count)
             .chain(vec![1; dimension_count])
             .collect();
-        let target_clone = target_dimensions.clone();
 
         let backward_op: Option<BackwardOp> = if !self.is_tracked.get() {
             None
@@ -157,9 +156,9 @@ impl Array {
                     vec![&x],
                     &op,
                     None,
-                    &target_clone,
+                    &x.dimensions,
                     &c[0].dimensions,
-                    dimension_count,
+                    1,
                     0,
                 ))]
             }))
